@@ -216,7 +216,7 @@ Section WithQueryer.
           apply g_choose. intros [|has] _.
           -- destruct (inspectb _) as [E|E]; [|apply g_ret]. brk. apply REC; unfold rank, W in *; cbn [b2n negb]; lia.
           -- apply guarded_bind.
-             ++ destruct v6; [|apply g_ret]. apply g_choose. intros h6 _. apply ns_lookups0_guarded.
+             ++ destruct (v6 && negb (cx_walk c))%bool; [|apply g_ret]. apply g_choose. intros h6 _. apply ns_lookups0_guarded.
              ++ intros _. destruct (inspectb _) as [E|E]; [|apply g_ret]. brk. apply g_choose. intros n' _. apply g_choose. intros l' Hl'.
                 apply REC; [|lia]. unfold rank, W in *. destruct depth as [|d]; [lia|]. cbn [Nat.sub]. rewrite Nat.sub_0_r.
                 destruct nomin, unch; cbn [b2n negb]; lia.
@@ -279,7 +279,7 @@ Section WithQueryer.
           -- destruct (inspectb _) as [E|E]; [|apply c_ret]. brk.
              eapply c_weaken; [apply REC; unfold rank, W in *; cbn [b2n negb]; lia|unfold rest; lia].
           -- apply costs_bind_le with (a := Fmax * Q0) (b := rest); [| |lia].
-             ++ destruct v6; [|apply c_ret]. apply c_choose. intros h6 Hh6.
+             ++ destruct (v6 && negb (cx_walk c))%bool; [|apply c_ret]. apply c_choose. intros h6 Hh6.
                 eapply c_weaken; [apply ns_lookups0_costs|]. apply Nat.mul_le_mono_r. exact Hh6.
              ++ intros _. destruct (inspectb _) as [E|E]; [|apply c_ret]. brk. apply c_choose. intros n' Hn'. apply c_choose. intros l' Hl'.
                 apply REC; [|lia|lia]. unfold rank, W in *. destruct depth as [|d]; [lia|]. cbn [Nat.sub]. rewrite Nat.sub_0_r.
@@ -532,9 +532,9 @@ Section Closed.
   Definition work_bound (gen : nat) : nat := run_cost (qcost (gcost gen) maxQ) (gcost gen).
 
   Lemma client_ok : forall gen c,
-    guarded (client maxdepth qmin v6 Smax Fmax Lmax G gen c) /\ costs (client maxdepth qmin v6 Smax Fmax Lmax G gen c) (work_bound gen).
+    guarded (clientg maxdepth qmin v6 Smax Fmax Lmax G gen c) /\ costs (clientg maxdepth qmin v6 Smax Fmax Lmax G gen c) (work_bound gen).
   Proof.
-    intros gen c. unfold client, work_bound, run_cost.
+    intros gen c. unfold clientg, work_bound, run_cost.
     set (nq := queryg maxdepth qmin v6 Smax Fmax Lmax G gen (N.to_nat max_queryer_recursion)).
     set (nq0 := detached maxdepth qmin v6 Smax Fmax Lmax G gen).
     assert (Gq : forall cc, guarded (nq cc)) by (intros; apply queryg_ok).
@@ -547,9 +547,9 @@ Section Closed.
     split; [eapply pipeline_guarded|eapply pipeline_costs]; eauto; intros cc; apply VL.
   Qed.
 
-  Lemma client_guarded : forall gen c, guarded (client maxdepth qmin v6 Smax Fmax Lmax G gen c).
+  Lemma client_guarded : forall gen c, guarded (clientg maxdepth qmin v6 Smax Fmax Lmax G gen c).
   Proof. intros. apply client_ok. Qed.
-  Lemma client_costs : forall gen c, costs (client maxdepth qmin v6 Smax Fmax Lmax G gen c) (work_bound gen).
+  Lemma client_costs : forall gen c, costs (clientg maxdepth qmin v6 Smax Fmax Lmax G gen c) (work_bound gen).
   Proof. intros. apply client_ok. Qed.
 End Closed.
 
